@@ -96,6 +96,9 @@ _FUNCS = [
     ('foo_union_get_i', INT, [('u', T('FooUnion', 1))], 'FooUnion', 'get_i', 'method', {}),
     ('foo_obj_new', T('FooObj', 1), [], 'FooObj', 'new', 'ctor', {}),
     ('foo_obj_create', T('FooObj', 1), [('v', INT)], 'FooObj', 'create', 'static', {'ctor_ok': True}),
+    # returns its own type AND takes it first: a method by default, a constructor when annotated (constructor)
+    ('foo_obj_derive', T('FooObj', 1), [('base', T('FooObj', 1)), ('n', INT)], 'FooObj', 'derive', 'method', {'ctor_ok': True}),
+    ('foo_boxed_dup_from', T('FooBoxed', 1), [('b', T('FooBoxed', 1)), ('v', INT)], 'FooBoxed', 'dup_from', 'method', {'ctor_ok': True}),
     ('foo_obj_frob', VOID, [('self', T('FooObj', 1)), ('v', INT)], 'FooObj', 'frob', 'method', {'group': 'obj', 'flag': 'frob_invoker'}),
     ('foo_obj_frob_full', VOID, [('self', T('FooObj', 1)), ('v', INT), ('w', INT)], 'FooObj', 'frob_full', 'method', {'group': 'obj'}),
     ('foo_obj_do_act', VOID, [('self', T('FooObj', 1)), ('s', CSTR)], 'FooObj', 'do_act', 'method', {'group': 'obj'}),
